@@ -101,11 +101,11 @@ macro_rules! return_if_some {
     };
 }
 
-pub const N_SINGLE: usize = 13;
+pub const N_SINGLE: usize = 14;
 /// single-trait families the plugin module can also make (C05)
 pub const N_PLUGIN_SINGLE: usize = 7;
 /// containers available per single-trait family
-pub const SINGLE_NCONT: [usize; N_SINGLE] = [2, 4, 2, 2, 1, 2, 1, 1, 1, 1, 4, 2, 2];
+pub const SINGLE_NCONT: [usize; N_SINGLE] = [2, 4, 2, 2, 1, 2, 1, 1, 1, 1, 4, 2, 2, 1];
 
 fn wrapc(o: Option<Box<dyn DynObj>>, cx: &Cx, cont: usize) -> Option<Created> {
     o.map(|obj| Created { obj, ctxsel: cx.ctxsel, borrowed: cont == 1 || cont == 2 })
@@ -136,6 +136,7 @@ pub fn create_single(family: usize, cont: usize, cx: &Cx) -> Option<Created> {
             10 => tw!(KIntResMixed),
             11 => tw!(KAttrs),
             12 => tw!(KLife),
+            13 => tw!(KDup),
             _ => return None,
         };
         return Some(Created { obj, ctxsel: cx.ctxsel, borrowed });
@@ -167,6 +168,7 @@ pub fn create_single(family: usize, cont: usize, cx: &Cx) -> Option<Created> {
         10 => er!(IntResMixed, KIntResMixed, [0, 1, 2, 3]),
         11 => er!(Attrs, KAttrs, [0, 1]),
         12 => er!(Life, KLife, [0, 1]),
+        13 => er!(Dup, KDup, [0]),
         _ => None,
     }
 }
